@@ -35,6 +35,12 @@ def configs(tier):
                 out.append({'mode': 'shape', 'n': n, 'L': L, 'centre': centre, 'fk': 'default'})
     for fk in ('n_cycles', 'n_seconds'):
         out.append({'mode': 'shape', 'n': 6, 'L': 1, 'centre': 'peak', 'fk': fk})
+    # pattern mode: the sign pattern of the filter output is an enumerated choice (every pattern made of
+    # half-waves of 1..2 samples with >= 3 closed half-waves of each kind), raw samples stay symbolic:
+    # reaches multi-row tables through the REAL find_extrema / find_zerox / compute_shape_features
+    for pat in patterns(11 if q else 13, 6 if q else 40):
+        for centre in (('peak',) if q else ('peak', 'trough')):
+            out.append({'mode': 'shape', 'n': len(pat), 'L': 0, 'centre': centre, 'fk': 'default', 'pattern': pat})
     # table assembly (compute_cyclepoints with find_extrema / find_zerox cut: arbitrary outputs that
     # satisfy their C02 / C03 contracts, positions fully symbolic) -- reaches multi-row tables
     for k in range(2, (6 if q else 9) + 1):
@@ -51,12 +57,40 @@ def configs(tier):
                                 'return_samples': False, 'api': 'func'})
                     out.append({'mode': 'full', 'n': n, 'L': L, 'centre': 'peak', 'method': method,
                                 'return_samples': True, 'api': 'obj'})
+    # filter length given in seconds / cycles through the object API and the functional API
+    for api in ('obj', 'func'):
+        for fk in ('n_seconds', 'n_cycles'):
+            out.append({'mode': 'full', 'n': 6, 'L': 1, 'centre': 'peak', 'method': 'cycles', 'return_samples': True,
+                        'api': api, 'fk': fk})
     return out
+
+
+def patterns(max_len, limit):
+    """sign patterns: lead-in, then alternating half-waves of 1..2 samples, >= 3 closed of each kind."""
+    import itertools
+    out = []
+    for nh in (8, 9):                         # half-waves incl. the two open ones at the ends
+        for lens in itertools.product((1, 2), repeat=nh):
+            if sum(lens) > max_len or sum(lens) < 8:
+                continue
+            if sum(1 for v in lens if v == 2) not in (2, 3):
+                continue
+            for first in '-+':
+                pat, ch = '', first
+                for v in lens:
+                    pat += ch * v
+                    ch = '+' if ch == '-' else '-'
+                out.append(pat)
+    out.sort(key=lambda p: (len(p), p))
+    step = max(1, len(out) // limit)
+    return out[::step][:limit]
 
 
 def cost(cfg):
     if cfg['mode'] == 'assembly':
         return 1
+    if cfg.get('pattern'):
+        return 3.0 ** len(cfg['pattern'])
     m = cfg['n'] + 2 * ((cfg['L'] + 1) // 2)
     return (4.0 if cfg['mode'] == 'shape' else 9.0) ** m
 
@@ -64,6 +98,8 @@ def cost(cfg):
 def split(cfg, tier):
     if cfg['mode'] == 'assembly':
         return None
+    if cfg.get('pattern'):
+        return 48
     m = cfg['n'] + 2 * ((cfg['L'] + 1) // 2)
     return 48 if m >= 7 else None
 
@@ -140,7 +176,7 @@ def run(ctx, cfg):
     x = [ctx.real('x%d' % i) for i in range(n)]
     boundary = ctx.integer('boundary')
     ctx.assume(boundary >= 0)
-    st = pipe.Stubs(ctx, L, min_halfwaves=2)
+    st = pipe.Stubs(ctx, L, min_halfwaves=2, pattern=cfg.get('pattern'))
     sig = np.array(list(x), dtype=float)
     fek = {'boundary': boundary, 'pad': L > 0}
     fk = cfg.get('fk', 'default')
